@@ -1,6 +1,7 @@
 package rules
 
 import (
+	"go/token"
 	"golang.org/x/tools/go/ssa"
 
 	"f1verif/internal/an"
@@ -255,18 +256,18 @@ func c20(c *core.Ctx, r *core.Report) {
 					}
 				}
 				if ok && mc.Fn != ssa.Value(iterFn) {
-				// another of the iteration functions the setup can hand back: judged in its own pass
-				other := false
-				for _, it := range iterFns {
-					if f, isF := mc.Fn.(*ssa.Function); isF && (f == it || an.Unwrap(f) == it) {
-						other = true
+					// another of the iteration functions the setup can hand back: judged in its own pass
+					other := false
+					for _, it := range iterFns {
+						if f, isF := mc.Fn.(*ssa.Function); isF && (f == it || an.Unwrap(f) == it) {
+							other = true
+						}
+					}
+					if other {
+						continue
 					}
 				}
-				if other {
-					continue
-				}
-			}
-			r.Check(ok && mc.Fn == ssa.Value(iterFn), "CombineScenarios$setup#returns", an.Pos(c, ret), "the setup returns the walking closure", "the setup closure returns "+an.D().Of(ret.Results[0]))
+				r.Check(ok && mc.Fn == ssa.Value(iterFn), "CombineScenarios$setup#returns", an.Pos(c, ret), "the setup returns the walking closure", "the setup closure returns "+an.D().Of(ret.Results[0]))
 			}
 		})
 
@@ -288,11 +289,66 @@ func c20(c *core.Ctx, r *core.Report) {
 					continue
 				}
 				ia, ok := an.Strip(call.Common().Value).(*ssa.IndexAddr)
-				okLoop := ok && isCounter(ia.Index)
+				var idx ssa.Value
+				if ok {
+					idx = ia.Index
+					// `for i = range list` with i declared outside the loop (kept for a deferred report): the index is read
+					// back from the variable the counter was just stored in
+					if ld, isLd := idx.(*ssa.UnOp); isLd && ld.Op == token.MUL {
+						if cellA, isAl := ld.X.(*ssa.Alloc); isAl {
+							var inLoopStores []*ssa.Store
+							for _, st := range an.StoresTo(cellA) {
+								if st.Parent() == call.Parent() && an.InLoop(st) {
+									inLoopStores = append(inLoopStores, st)
+								}
+							}
+							if len(inLoopStores) == 1 && isCounter(inLoopStores[0].Val) && inLoopStores[0].Block().Dominates(call.Block()) {
+								idx = inLoopStores[0].Val
+							}
+						}
+					}
+				}
+				okLoop := ok && isCounter(idx)
 				why := "the element called is not indexed by a forward loop counter"
 				if okLoop {
-					if _, ok := forwardBound(call.Block(), ia.Index, ia.X, func(a, b ssa.Value) bool { return a == b }); !ok {
+					if _, ok := forwardBound(call.Block(), idx, ia.X, func(a, b ssa.Value) bool { return a == b }); !ok {
 						okLoop, why = false, "the loop is not bounded by the length of the list (some components are skipped)"
+					}
+				}
+				if okLoop {
+					// the pass ends only when the list is exhausted: no other way out of the loop (a `return` or `break` after
+					// a component that merely marked the iteration failed would skip the later components)
+					if loop, _ := an.NaturalLoopOf(call.Block()); loop != nil {
+						for b := range loop {
+							exits := false
+							for _, sc := range b.Succs {
+								if !loop[sc] {
+									exits = true
+								}
+							}
+							if !exits {
+								continue
+							}
+							isBoundTest := false
+							if iff, isIf := b.Instrs[len(b.Instrs)-1].(*ssa.If); isIf {
+								if bo, isBin := iff.Cond.(*ssa.BinOp); isBin {
+									for _, side := range []ssa.Value{bo.X, bo.Y} {
+										if side == idx {
+											isBoundTest = true
+										}
+										if inc, isInc := side.(*ssa.BinOp); isInc && (inc.X == idx || inc.Y == idx) {
+											isBoundTest = true
+										}
+										if ph, isPhi := idx.(*ssa.BinOp); isPhi && (side == ph.X || side == ph.Y) {
+											isBoundTest = true
+										}
+									}
+								}
+							}
+							if !isBoundTest {
+								okLoop, why = false, "the loop over the components is left at "+an.Pos(c, b.Instrs[len(b.Instrs)-1])+" before the list is exhausted: later components are skipped in that iteration"
+							}
+						}
 					}
 				}
 				if okLoop && an.OnCycleAvoiding(call, loopHeaderOf(call)) {
@@ -316,8 +372,18 @@ func c20(c *core.Ctx, r *core.Report) {
 						clean = false
 						r.Violation(key+"#go", an.Pos(c, in), "go statement inside the combined closure")
 					case *ssa.Defer:
-						clean = false
-						r.Violation(key+"#defer", an.Pos(c, in), "defer inside the combined closure: with a recover it lets later components run after one stopped the iteration")
+						// a deferred report (logging which component stopped the iteration) unwinds like no defer at all;
+						// a deferred function that recovers does not
+						recovers := false
+						if t := an.Callee(x); t != nil && t.Blocks != nil {
+							recovers = an.ReachesCall(t, 3, func(g *ssa.Function) bool { return false }) || callsRecover(t, 3)
+						} else if t == nil {
+							recovers = true // a deferred call of an unknown function value
+						}
+						if recovers {
+							clean = false
+							r.Violation(key+"#defer", an.Pos(c, in), "a deferred function that can recover inside the combined closure: it lets later components run after one stopped the iteration")
+						}
 					case ssa.CallInstruction:
 						if an.IsBuiltinCall(x, "recover") {
 							clean = false
@@ -326,7 +392,18 @@ func c20(c *core.Ctx, r *core.Report) {
 					}
 				})
 				for _, a := range fn.AnonFuncs {
-					if a != iterFn {
+					isVariant := a == iterFn
+					for _, it := range iterFns {
+						if a == it {
+							isVariant = true
+						}
+					}
+					if isVariant {
+						continue
+					}
+					// a literal that holds a component call wraps the components; one that does not (a deferred report) is
+					// judged by the defer rule above
+					if inner, _ := loopCall(a, typ); inner != nil {
 						clean = false
 						r.Violation(key+"#nested", c.Pos(a.Pos()), "components are wrapped in an extra function literal")
 					}
@@ -370,4 +447,25 @@ func c20(c *core.Ctx, r *core.Report) {
 func isRangeElemOf(v ssa.Value) bool {
 	ia, ok := an.Strip(v).(*ssa.IndexAddr)
 	return ok && isCounter(ia.Index)
+}
+
+// callsRecover: f, or a module function it calls (to the given depth), calls the builtin recover.
+func callsRecover(f *ssa.Function, depth int) bool {
+	if f == nil || f.Blocks == nil || depth < 0 {
+		return false
+	}
+	for _, call := range an.AllCalls(f) {
+		if an.IsBuiltinCall(call, "recover") {
+			return true
+		}
+		if t := an.Callee(call); t != nil && t != f && core.InModule(t) && callsRecover(t, depth-1) {
+			return true
+		}
+	}
+	for _, a := range f.AnonFuncs {
+		if callsRecover(a, depth-1) {
+			return true
+		}
+	}
+	return false
 }
